@@ -993,3 +993,101 @@ pub fn holefill_set(rng: &mut Rng, n: usize) -> Vec<Vec<(Vec<P>, Vec<Vec<P>>)>> 
     }
     out
 }
+
+/// family "teeth": two interlocking histograms in one box. A = the region below a random step
+/// function h (columns of width 1..3), B = the region above another step function g on the same
+/// columns, hanging from the top. Where g > h there is a gap, where g = h the operands share a
+/// boundary segment, where g < h they overlap. The bounding boxes always overlap almost
+/// completely although the operands may be disjoint: nothing can be decided from the boxes, and
+/// edges of one operand lie to the left of, below and above the other's in every arrangement.
+pub fn teeth_set(rng: &mut Rng, n: usize) -> Vec<Vec<(Vec<P>, Vec<Vec<P>>)>> {
+    let width = rng.range(6, 14);
+    let top = rng.range(6, 12);
+    let o = (rng.range(-30, 30), rng.range(-30, 30));
+    let mut out = vec![];
+    let mut profile: HashMap<i64, i64> = HashMap::new(); // height of the first operand over [x, x+1]
+    for i in 0..n {
+        let from_top = i % 2 == 1;
+        // each operand has its own columns inside its own sub-range of the common span, so either
+        // may reach further left / right and step edges of one start beside the other's box
+        let (x0, x1) = if rng.chance(1, 3) { (0, width) } else { let a = rng.range(0, width - 2); (a, rng.range(a + 2, width)) };
+        let mut xs = vec![o.0 + x0];
+        while *xs.last().unwrap() < o.0 + x1 {
+            let last = *xs.last().unwrap();
+            xs.push((last + rng.range(1, 4)).min(o.0 + x1));
+        }
+        let cols = xs.len() - 1;
+        // two thirds of the hanging operands follow the first operand's profile from above (gap
+        // 0, 1 or 2 per column: interlocking teeth that touch or stay apart); the rest is random
+        let follow = from_top && !profile.is_empty() && rng.chance(2, 3);
+        let hs: Vec<i64> = (0..cols)
+            .map(|c| {
+                if follow {
+                    let below = (xs[c]..xs[c + 1]).map(|x| profile.get(&x).cloned().unwrap_or(0)).max().unwrap_or(0);
+                    (below + rng.range(0, 2)).clamp(1, top - 1)
+                } else if from_top {
+                    rng.range(2, top - 1)
+                } else {
+                    rng.range(1, top - 2)
+                }
+            })
+            .collect();
+        if i == 0 {
+            for c in 0..cols {
+                for x in xs[c]..xs[c + 1] {
+                    profile.insert(x, hs[c]);
+                }
+            }
+        }
+        let keep_collinear = rng.chance(1, 2);
+        let base_y = if from_top { o.1 + top } else { o.1 };
+        let mut r: Vec<P> = vec![];
+        if !from_top {
+            for c in 0..=cols {
+                if keep_collinear || c == 0 || c == cols {
+                    r.push((xs[c], base_y));
+                }
+            }
+            for c in (0..cols).rev() {
+                r.push((xs[c + 1], o.1 + hs[c]));
+                r.push((xs[c], o.1 + hs[c]));
+            }
+        } else {
+            for c in (0..=cols).rev() {
+                if keep_collinear || c == 0 || c == cols {
+                    r.push((xs[c], base_y));
+                }
+            }
+            for c in 0..cols {
+                r.push((xs[c], o.1 + hs[c]));
+                r.push((xs[c + 1], o.1 + hs[c]));
+            }
+        }
+        // equal neighbouring heights: drop the repeated point, and (always) the collinear vertex
+        // between two steps of one height, so that step edges can be long
+        let d = dedup_ring(&r);
+        let m = d.len();
+        let ring: Vec<P> = (0..m)
+            .filter(|&k| {
+                let (a, b, c) = (d[(k + m - 1) % m], d[k], d[(k + 1) % m]);
+                let collinear = cross(sub(b, a), sub(c, b)) == 0;
+                !collinear || (keep_collinear && b.1 == base_y)
+            })
+            .map(|k| d[k])
+            .collect();
+        out.push(vec![(ring, vec![])]);
+    }
+    out
+}
+fn dedup_ring(r: &[P]) -> Vec<P> {
+    let mut v: Vec<P> = vec![];
+    for p in r {
+        if v.last() != Some(p) {
+            v.push(*p);
+        }
+    }
+    while v.len() > 1 && v.first() == v.last() {
+        v.pop();
+    }
+    v
+}
